@@ -4,6 +4,7 @@ import Bng.Drv.TcSafe
 import Bng.Drv.Decoders
 import Bng.Drv.Coa
 import Bng.Drv.Acct
+import Bng.Drv.AcctBackoff
 import Bng.Drv.TokenBucket
 import Bng.Drv.Antispoof
 import Bng.Drv.HaSync
@@ -42,6 +43,7 @@ def components : List (String × Component) := [
   ("decoders", DecodersDrv.component),
   ("coa", CoaDrv.component),
   ("acct", AcctDrv.component),
+  ("acctretry", AcctBackoffDrv.component),
   ("qos", TokenBucketDrv.component),
   ("antispoof", AntispoofDrv.component),
   ("hasync", HaSyncDrv.component),
